@@ -9,6 +9,7 @@ mod core;
 mod engines;
 mod model;
 mod props;
+mod rawstate;
 mod rng;
 
 use crate::core::*;
